@@ -196,10 +196,14 @@ Definition state_inv (cfg : config) (st : pstate) : Prop :=
                g <> [] /\ chunk_inv cfg ck g /\ fits_records cfg g /\ (fits_bytes cfg g \/ length g = 1%nat)
   end.
 
+Definition num_bytes_spec (cfg : config) (g : list R) : Z :=
+  match cf_kind cfg with KForward => body_size KForward g | KDatadog => body_size KDatadog g + 1 end.
+
 Definition good_chunk (cfg : config) (e : echunk) : Prop :=
   chunk_holds cfg e (e_records e) /\
   fits_records cfg (e_records e) /\
-  (fits_bytes cfg (e_records e) \/ length (e_records e) = 1%nat).
+  (fits_bytes cfg (e_records e) \/ length (e_records e) = 1%nat) /\
+  e_num_bytes e = num_bytes_spec cfg (e_records e).
 
 Definition op_records (o : op) : list R := match o with OWrite _ r => [r] | OFlush => [] end.
 
@@ -218,13 +222,24 @@ Proof.
   destruct (finalize_holds cfg ck g Hinv Hne) as [_ [Hb _]]. rewrite Hb. apply recs_of_body_spec.
 Qed.
 
+(* the byte counter handed to the encoder (NumBytes): exact for the Forward modes; for Datadog it is one more than
+   the body (the first record is counted with a comma it does not have) *)
+Lemma finalize_num_bytes : forall cfg ck g, chunk_inv cfg ck g -> g <> [] ->
+  e_num_bytes (finalize cfg ck) = num_bytes_spec cfg g.
+Proof.
+  intros cfg ck g [Hw [Hn Hb]] Hne. unfold Packer.finalize, num_bytes_spec.
+  destruct (cf_kind cfg); cbn [e_num_bytes acct ChunkSpec.body_size] in *; rewrite Hb; [reflexivity|].
+  destruct g as [|r g]; [congruence|]. cbn [length]. lia.
+Qed.
+
 Lemma finalize_good : forall cfg ck g,
   chunk_inv cfg ck g -> g <> [] -> fits_records cfg g -> (fits_bytes cfg g \/ length g = 1%nat) ->
   good_chunk cfg (finalize cfg ck).
 Proof.
   intros cfg ck g Hci Hne Hfr Hfb. unfold good_chunk.
   rewrite (e_records_finalize cfg ck g Hci Hne).
-  split; [apply finalize_holds; assumption|]. split; assumption.
+  split; [apply finalize_holds; assumption|]. split; [assumption|]. split; [assumption|].
+  apply finalize_num_bytes; assumption.
 Qed.
 
 Lemma flush_spec : forall cfg st st' out,
@@ -402,9 +417,19 @@ Lemma limits_lemma : forall cfg ops,
 Proof.
   intros cfg ops. pose proof (run_spec cfg ops pstate_init (state_inv_init cfg)) as H.
   destruct (run cfg pstate_init ops) as [st' em]. destruct H as [_ [_ Hg]].
-  eapply Forall_impl; [|exact Hg]. intros e [Hh [Hr Hb]]. cbv zeta. split; [exact Hr|].
+  eapply Forall_impl; [|exact Hg]. intros e [Hh [Hr [Hb _]]]. cbv zeta. split; [exact Hr|].
   intro Hpos. destruct Hb as [Hb|Hb]; [left|right; assumption].
   destruct Hh as [_ [Hbody _]]. rewrite Hbody, body_size_spec. apply Hb. assumption.
+Qed.
+
+(* the NumBytes counter of every emitted chunk *)
+Lemma num_bytes_lemma : forall cfg ops,
+  let (st', em) := run cfg pstate_init ops in
+  Forall (fun e => e_num_bytes e = num_bytes_spec cfg (e_records e)) em.
+Proof.
+  intros cfg ops. pose proof (run_spec cfg ops pstate_init (state_inv_init cfg)) as H.
+  destruct (run cfg pstate_init ops) as [st' em]. destruct H as [_ [_ Hg]].
+  eapply Forall_impl; [|exact Hg]. intros e [_ [_ [_ Hn]]]. exact Hn.
 Qed.
 
 (* after a flush nothing is buffered: every record written so far is in an emitted chunk *)
